@@ -52,6 +52,19 @@ def check_table(T):
         return "conn", "conn attribute differs from the specification"
     if not np.array_equal(dom.get_elemconnectivity(idx[:, 0], idx[:, 1], idx[:, 2]), conn):
         return "conn", "get_elemconnectivity (array arguments) differs"
+    # index arrays of rank 2 / 3 (np.meshgrid(..., indexing='ij'), the idiom the library itself uses)
+    gx = [np.arange(max(1, int(idx[:, d].max()) + 1)) for d in range(3)]
+    I, J, K = np.meshgrid(*gx, indexing="ij")
+    for sl in ((slice(None), slice(None), 0), (slice(None), slice(None), slice(None))):
+        ii, jj, kk = I[sl], J[sl], K[sl]
+        en = dom.get_elemnumber(ii, jj, kk)
+        lut = {tuple(t): no for t, no in zip(idx.tolist(), nos.tolist())}
+        exp_no = np.array([lut[(int(a), int(b), int(c_))] for a, b, c_ in zip(ii.ravel(), jj.ravel(), kk.ravel())]).reshape(ii.shape)
+        if np.shape(en) != ii.shape or not np.array_equal(en, exp_no):
+            return "elemno", "get_elemnumber with index arrays of shape %s differs" % (ii.shape,)
+        cn = dom.get_elemconnectivity(ii, jj, kk)
+        if np.shape(cn) != ii.shape + (conn.shape[1],) or not np.array_equal(cn, conn[exp_no]):
+            return "conn", "get_elemconnectivity with index arrays of shape %s: shape %s, or not the corner nodes of the indexed elements" % (ii.shape, np.shape(cn))
     for nd in (1, 2, 3):
         dc = np.array([r[3][nd - 1] for r in E])
         if not np.array_equal(dom.get_dofconnectivity(nd), dc):
